@@ -732,9 +732,12 @@ pub enum RBackend {
     AdCursor,
     /// WordAdapter over BufReader<Cursor<Vec<u8>>> (small internal buffer)
     AdBufReader,
+    /// WordAdapter over a byte source that behaves as std::io::Read allows: short reads of 1..W-1
+    /// bytes and Interrupted errors, in a fixed pseudo-random pattern
+    AdHostile,
 }
 impl RBackend {
-    pub const ALL: [RBackend; 8] = [
+    pub const ALL: [RBackend; 9] = [
         RBackend::RecZ,
         RBackend::RecS,
         RBackend::MemZ,
@@ -743,10 +746,11 @@ impl RBackend {
         RBackend::WSlice,
         RBackend::AdCursor,
         RBackend::AdBufReader,
+        RBackend::AdHostile,
     ];
     pub const ZEXT: [RBackend; 2] = [RBackend::RecZ, RBackend::MemZ];
-    pub const STRICT: [RBackend; 6] =
-        [RBackend::RecS, RBackend::MemS, RBackend::WVec, RBackend::WSlice, RBackend::AdCursor, RBackend::AdBufReader];
+    pub const STRICT: [RBackend; 7] =
+        [RBackend::RecS, RBackend::MemS, RBackend::WVec, RBackend::WSlice, RBackend::AdCursor, RBackend::AdBufReader, RBackend::AdHostile];
     pub fn zext(self) -> bool {
         matches!(self, RBackend::RecZ | RBackend::MemZ)
     }
@@ -760,6 +764,7 @@ impl RBackend {
             RBackend::WSlice => "wslice",
             RBackend::AdCursor => "adapter-cursor",
             RBackend::AdBufReader => "adapter-bufreader",
+            RBackend::AdHostile => "adapter-hostile",
         }
     }
 }
@@ -844,6 +849,26 @@ macro_rules! reader_backends {
                 let c = io::BufReader::with_capacity(5, io::Cursor::new(image.to_vec()));
                 (mk_reader!($E, $ctor::<$E, _>::new(WordAdapter::<$W, _>::new(c)), cfg.kind, desc; seek, io $(, $x)*), None)
             }
+            RBackend::AdHostile => {
+                let wb = <$W as HWord>::NBYTES;
+                let mut x = 0x9E37_79B9_7F4A_7C15u64 ^ image.len() as u64;
+                let sched: Vec<Fault> = (0..512)
+                    .map(|_| {
+                        x ^= x << 13;
+                        x ^= x >> 7;
+                        x ^= x << 17;
+                        match x % 5 {
+                            0 => Fault::Interrupted,
+                            1 => Fault::Limit(1),
+                            2 => Fault::Limit(1.max(wb - 1)),
+                            3 => Fault::Limit(1.max(wb / 2)),
+                            _ => Fault::Limit(wb),
+                        }
+                    })
+                    .collect();
+                let c = FaultyIo::new(image.to_vec(), sched, Fault::Limit(1.max(wb / 2)));
+                (mk_reader!($E, $ctor::<$E, _>::new(WordAdapter::<$W, _>::new(c)), cfg.kind, desc; seek, io $(, $x)*), None)
+            }
         }
     }};
 }
@@ -869,7 +894,7 @@ pub fn make_reader(cfg: RCfg, image: &[u8]) -> ReaderHandle {
 /// Byte-stream backends over a source whose length is not a multiple of the word size
 /// (only AdCursor / AdBufReader make sense here).
 pub fn make_reader_unaligned(cfg: RCfg, bytes: &[u8]) -> ReaderHandle {
-    assert!(matches!(cfg.be, RBackend::AdCursor | RBackend::AdBufReader));
+    assert!(matches!(cfg.be, RBackend::AdCursor | RBackend::AdBufReader | RBackend::AdHostile));
     make_reader(cfg, bytes)
 }
 
@@ -922,6 +947,8 @@ pub enum WBackend {
     AdSink,
     /// WordAdapter over a sink that legally accepts at most this many bytes per write call
     AdShort(usize),
+    /// MemWordWriterVec over an owned Vec that already holds (non-zero) words: a reused buffer
+    VecDirty,
 }
 impl WBackend {
     pub fn name(self) -> String {
@@ -929,6 +956,7 @@ impl WBackend {
             WBackend::Rec(None) => "rec".into(),
             WBackend::Rec(Some(c)) => format!("rec-cap{}", c),
             WBackend::VecOwned => "vec".into(),
+            WBackend::VecDirty => "vec-dirty".into(),
             WBackend::Slice(c) => format!("slice{}", c),
             WBackend::AdVec => "adapter-vec".into(),
             WBackend::AdSink => "adapter-sink".into(),
@@ -939,6 +967,7 @@ impl WBackend {
         match self {
             WBackend::Rec(_) => "rec",
             WBackend::VecOwned => "vec",
+            WBackend::VecDirty => "vec-dirty",
             WBackend::Slice(_) => "slice",
             WBackend::AdVec => "adapter-vec",
             WBackend::AdSink => "adapter-sink",
@@ -1002,6 +1031,23 @@ macro_rules! writer_backends {
                  -> R<Vec<u8>> {
                     let b = w.into_inner().map_err(|e| e.to_string())?;
                     Ok(bytes_from_words(&b.into_inner()))
+                }),
+                None,
+            ),
+            WBackend::VecDirty => (
+                mk_writer!($E, $W, BufBitWriter::<$E, _>::new(MemWordWriterVec::new(vec![<$W>::MAX; 24])), None, desc, |w: BufBitWriter<
+                    $E,
+                    MemWordWriterVec<$W, Vec<$W>>,
+                >|
+                 -> R<Vec<u8>> {
+                    let mut b = w.into_inner().map_err(|e| e.to_string())?;
+                    // the words written so far are the image; whatever the vector held beyond them stays
+                    let pos = b.word_pos().map_err(|e| e.to_string())? as usize;
+                    let all = b.into_inner();
+                    if all.len() < pos || all[pos..].iter().any(|x| *x != <$W>::MAX) {
+                        return Err(format!("words beyond the cursor were altered: {:x?}", &all[pos.min(all.len())..]));
+                    }
+                    Ok(bytes_from_words(&all[..pos]))
                 }),
                 None,
             ),
